@@ -123,8 +123,10 @@ fn linearize_tree(tree: &SourceTree) -> Result<Vec<SourceFile<'_>>> {
 
     let mut sources: Vec<_> = Vec::with_capacity(tree.sources.len());
 
-    // prepare paths
-    for (path, source) in &tree.sources {
+    // prepare paths, in path order: files that map to the same module path (`m.prql` and
+    // `m.sql`) keep a fixed relative order below, and the first invalid path reported
+    // is the same on every run
+    for (path, source) in tree.sources.iter().sorted_by_key(|(path, _)| *path) {
         if path == root_path {
             continue;
         }
